@@ -11,6 +11,7 @@ from typing import Any
 from ..boot import VERIF
 from ..runner import Divergence, Driver, Env, Outcome, Violation, diff_streams
 from ..vloop import VLoop
+from .. import c29_deb
 
 THEOREMS = [
     "C29_source_shape",
@@ -29,6 +30,14 @@ THEOREMS = [
     "C29_dsp_exactly_once",
     "C29_dsp_final",
     "C29_dsp_error",
+    "C29_merge_accounting",
+    "C29_merge_lag_le_one",
+    "C29_merge_stop_on_first_completion",
+    "C29_source_debouncer_shape",
+    "C29_deb_not_before_quiet",
+    "C29_deb_fire_time",
+    "C29_deb_loop_never_spins",
+    "C29_deb_window_fixed_when_debounce_ge_max",
 ]
 LEAN_TARGETS = ["WfProps.C29"]
 EXPLANATION = (
@@ -49,12 +58,27 @@ EXPLANATION = (
     "sorted-burst-then-arrival-order; exactly once), and the order clause once more from the inputs alone: arrival times "
     "against the debounce / max window give the admissible burst lengths k, output must be stable_sort(arrival[:k]) ++ "
     "arrival[k:]. Besides the short scripts, every run feeds long initial bursts (999..10000 items and the neighbourhood of "
-    "every integral constant of the current iter_utils.py), replayed by the model up to 3000 items and once at 10000."
+    "every integral constant of the current iter_utils.py), replayed by the model up to 3000 items and once at 10000. "
+    "Extension: (1) a second merge invariant gives, for EVERY reachable state, the accounting of produced items (yielded / collected "
+    "awaiting yield / discarded by the stop-first break / in an unlooked-at finished task), the back-pressure bound (no source more "
+    "than one item ahead of the consumer) and the stop_on_first_completion clauses (normal return only by a real completion, no yield "
+    "after the stop, no retired slot). (2) The Debouncer's timer arithmetic is a second model with an explicit monotone clock "
+    "(WfModel/IterDebounce.lean; comparison operator, loop / extend_window / __init__ shapes and parameter defaults regenerated): "
+    "the signal is never set before min(u + debounce, start + max_window) for the start and every extend_window call u, is set at "
+    "exactly max(start, min(last + debounce, start + max_window)) plus the lateness of the loop task, the loop runs at most "
+    "(#extend_window + 2) iterations and is never stuck; with debounce >= max_window (the defaults) the window is fixed. Tie: every "
+    "real debounced_sorted_prefix run (all sizes, also the nested ones) and stand-alone Debouncer runs log __init__ / extend_window / "
+    "sleep(remaining) / signal.set() with their clock values; the compiled timed model replays them (ops c29deb_*: complete_time after each "
+    "extend, wake-up time of each sleep, firing time, iteration count, lateness 0) and an oracle independent of the model checks the firing time."
 )
 LEVEL_TEXT = "proof (Lean 4) over an executable LTS model + per-run trace validation against the real generators + direct monitors"
 ASSUMPTIONS = [
     "asyncio task scheduling, cancellation delivery and the finally-block of merge_generators (cancel/gather/aclose) are not modelled; they are exercised only by the real runs under the virtual-time loop",
-    "the debounce arithmetic (extend_window, max_window_seconds) is abstracted: the timer may fire at any point of the action list (a superset of the real timings)",
+    "in the Dsp model the debounce timer may fire at any point of the action list (a superset of the real timings); WHEN it fires is the separate timed model Deb "
+    "(C29_deb_*), tied to the same real runs; the two models are composed in prose, not by a Lean refinement: Dsp's `fire` = Deb's firing `loop`, Deb's `extend` = "
+    "Dsp's buffering branch (source fact bufferBranchHoldsBack)",
+    "Deb: clock values are integers (the check uses dyadic virtual-loop times scaled by 65536); lateness of the `_loop` task is a ghost quantity that the theorems "
+    "bound the firing time with; the virtual-time loop only exhibits lateness 0; floating-point rounding of real clock sums is not modelled",
     "keys are modelled as natural numbers with <=; Python compares arbitrary keys with <",
     "the flush marker is a module-private object recognised by identity (C29_source_shape: Gen.markerInBand = false), which the model renders as the Tok.val / Tok.marker split; a stream that deliberately yields that private object is outside the domain",
     "a consumer that abandons the generator early (aclose) is outside the property and not modelled",
@@ -76,6 +100,7 @@ UID_STRIDE = 100_000       # uid = source index * UID_STRIDE + position in the s
 LONG_SIZES = (999, 1000, 1001, 2500, 10000)   # burst lengths fed on every run, besides those around the source's constants
 MAX_LONG = 20_000          # longest burst derived from a constant of the source
 DERIVED_ITEMS = 40_000     # per round: total length of the bursts derived from constants (keeps the run time bounded)
+MAX_HANGS = 6              # runs that do not terminate before the case loop gives up (each costs MAX_STEPS iterations)
 K_MAX_ITEMS = 3_000        # runs with more items go through the model only once per run (the compiled model is quadratic: appends)
 
 
@@ -262,7 +287,7 @@ class _Probe:
         class ProbedEvent(asyncio.Event):
             def set(self) -> None:  # type: ignore[override]
                 if not self.is_set():
-                    probe.log.append(("FIRE",))
+                    probe.log.append(("FIRE", _loop_time()))
                 super().set()
 
         class AsyncioProxy:
@@ -270,6 +295,11 @@ class _Probe:
 
             def __getattr__(self, name: str) -> Any:
                 return getattr(asyncio, name)
+
+            async def sleep(self, delay: Any, *a: Any, **kw: Any) -> Any:
+                # inside iter_utils only Debouncer._loop sleeps: one event per iteration that goes back to sleep
+                probe.log.append(("SL", _loop_time(), delay))
+                return await asyncio.sleep(delay, *a, **kw)
 
             async def wait(self, fs: Any, **kw: Any) -> Any:
                 done, pending = await asyncio.wait(fs, **kw)
@@ -313,6 +343,24 @@ class _Probe:
                   and p.kind in (p.POSITIONAL_ONLY, p.POSITIONAL_OR_KEYWORD)]
         new = tuple((_loop_time if p.name == "get_time" else p.default) for p in params)
         iu.Debouncer.__init__.__defaults__ = new
+        # the timer's own calls (for the timed model `c29deb_*` and the timer oracle)
+        probe = self
+        real_init = self._real_init = iu.Debouncer.__init__
+        real_ext = self._real_ext = iu.Debouncer.__dict__.get("extend_window")
+
+        def probed_init(this: Any, *a: Any, **kw: Any) -> None:
+            real_init(this, *a, **kw)
+            probe.log.append(("DEB", getattr(this, "start_time", None), getattr(this, "debounce_seconds", None),
+                              getattr(this, "max_window_seconds", None)))
+
+        def probed_ext(this: Any, *a: Any, **kw: Any) -> Any:
+            r = real_ext(this, *a, **kw)
+            probe.log.append(("EXT", _loop_time(), getattr(this, "complete_time", None)))
+            return r
+
+        iu.Debouncer.__init__ = probed_init
+        if real_ext is not None:
+            iu.Debouncer.extend_window = probed_ext
         self._saved_time = getattr(iu, "time", None)
         iu.time = _VTime()
         iu.asyncio = self.proxy
@@ -322,6 +370,9 @@ class _Probe:
         iu = self.iu
         iu.asyncio = self.real_asyncio
         iu.merge_generators = self.real_merge
+        iu.Debouncer.__init__ = self._real_init
+        if self._real_ext is not None:
+            iu.Debouncer.extend_window = self._real_ext
         iu.Debouncer.__init__.__defaults__ = self._saved_defaults
         if self._saved_time is not None:
             iu.time = self._saved_time
@@ -485,6 +536,63 @@ def run_str_case(iu: Any, case: dict) -> dict:
         except Hang as h:
             res["hang"] = str(h)
         return res
+
+
+def run_deb_case(iu: Any, case: dict) -> dict:
+    """case: {kind:'deb', d:ticks, w:ticks, script:[["sleep",k]|["hop",k]|["ext"]]} - the Debouncer alone: scripted
+    extend_window() calls, then wait(); afterwards aiter() must deliver exactly one element at once."""
+    with _Probe(iu) as pr:
+        log = pr.log
+        res: dict = {"log": log, "exc": None, "hang": None, "waited": None, "flags": [], "aiter": None}
+
+        async def main() -> None:
+            deb = iu.Debouncer(case["d"] * UNIT, case["w"] * UNIT)
+            res["flags"].append(bool(deb.is_complete))
+            for st in case["script"]:
+                if st[0] == "sleep":
+                    await asyncio.sleep(st[1] * UNIT)
+                elif st[0] == "hop":
+                    for _ in range(st[1]):
+                        await asyncio.sleep(0)
+                else:
+                    deb.extend_window()
+            fired_before = any(ev[0] == "FIRE" for ev in log)
+            await deb.wait()
+            res["waited"] = (_loop_time(), fired_before, any(ev[0] == "FIRE" for ev in log))
+            res["flags"].append(bool(deb.is_complete))
+            if hasattr(deb, "aiter"):
+                got = []
+                async for x in deb.aiter():
+                    got.append(x)
+                res["aiter"] = (got, _loop_time())
+
+        try:
+            run_loop(main, int(case.get("salt", 0)))
+        except Hang as h:
+            res["hang"] = str(h)
+        except Exception as e:  # the Debouncer itself raised
+            res["exc"] = e
+        return res
+
+
+def monitor_deb(case: dict, res: dict) -> list[Violation]:
+    if res["hang"]:
+        return [Violation("C29/deb_wait_never_returns", f"Debouncer.wait() did not return ({res['hang']}): the window never closed", case)]
+    if res["exc"] is not None:
+        return [Violation("C29/deb_spurious_error", f"Debouncer raised {res['exc']!r}", case)]
+    vs = c29_deb.monitor_timer(case, res["log"], Violation, ended=False)
+    o = c29_deb.oracle(res["log"])
+    t_wait, fired_before, fired_after = res["waited"]
+    if not fired_after:
+        vs.append(Violation("C29/deb_wait_returned_before_signal", "Debouncer.wait() returned although complete_signal was never set", case))
+    elif o is not None and o["fire"] is not None and not fired_before and t_wait != o["fire"]:
+        vs.append(Violation("C29/deb_wait_not_woken_at_signal",
+                            f"wait() returned at tick {(t_wait - START) * 64:g}, the signal was set at tick {(o['fire'] - START) * 64:g}", case))
+    if res["flags"] != [False, True] and not (res["flags"] == [True, True] and min(case["d"], case["w"]) <= 0):
+        vs.append(Violation("C29/deb_is_complete_wrong", f"is_complete before the script / after wait(): {res['flags']}", case))
+    if res["aiter"] is not None and (len(res["aiter"][0]) != 1 or res["aiter"][1] != t_wait):
+        vs.append(Violation("C29/deb_aiter_not_single_marker", f"Debouncer.aiter() after the window closed delivered {res['aiter']}", case))
+    return vs
 
 
 def monitor_str(case: dict, res: dict) -> list[Violation]:
@@ -704,6 +812,24 @@ def monitor_merge(case: dict, res: dict) -> list[Violation]:
             i = exc.src
             if len([x for x in got if x.src == i]) != len(_produced(log, i)):
                 vs.append(Violation("C29/merge_lost_before_error", f"source {i} produced {len(_produced(log, i))} items before raising, fewer were yielded", case))
+    if not vs:
+        # back-pressure (C29_merge_lag_le_one): one task per source, the next anext only after the hand-over -
+        # at no moment has a source produced more than one item beyond what was yielded from it
+        ahead = [0] * n
+        for ev in log:
+            if ev[0] == "P":
+                ahead[ev[1]] += 1
+                if ahead[ev[1]] > 1:
+                    vs.append(Violation("C29/merge_source_ran_ahead",
+                                        f"source {ev[1]} was advanced to {ev[2]} while its previous item had not been yielded yet "
+                                        f"(yielded so far: {[x for x in got if x.src == ev[1]][:len(_produced(log, ev[1])) - ahead[ev[1]]]})", case))
+                    break
+            elif ev[0] == "G" and isinstance(ev[1], Item):
+                ahead[ev[1].src] -= 1
+        # stop_on_first_completion (C29_merge_stop_on_first_completion): a normal return means some source really ended
+        if stop and n > 0 and exc is None and not any(ev[0] == "F" for ev in log):
+            vs.append(Violation("C29/merge_stopped_without_completion",
+                                "merge_generators(stop_on_first_completion=True) returned although no source had finished", case))
     if not stop and not vs:
         # whatever finished: at most the value of one unprocessed finished task per source is missing
         for i in range(n):
@@ -1070,6 +1196,8 @@ def run(env: Env) -> Outcome:
     lits = marker_literals()
     for _ in range(n // 10):
         cases.append(gen_str_case(env.rng, lits))
+    for _ in range(n // 3):
+        cases.append(c29_deb.gen_deb_case(env.rng))
     # long initial bursts (the generated scripts above have at most 6 items)
     from ..gen import iterutils as gen_facts
 
@@ -1083,6 +1211,7 @@ def run(env: Env) -> Outcome:
     all_ops: list[str] = []
     all_exp: list[str] = []
     owner: list[int] = []
+    n_hangs = 0
     big_in_k = False  # the first run above K_MAX_ITEMS (normally a 10000-item burst) is replayed by the model too
     for ci, case in enumerate(cases):
         if case["kind"] == "merge":
@@ -1095,6 +1224,21 @@ def run(env: Env) -> Outcome:
             out.count("merge:" + ("hang" if res["hang"] else "error" if res["exc"] is not None else "ok"))
             big = max((len(ev[1]) for ev in res["log"] if ev[0] == "B"), default=0)
             out.count(f"merge:max_batch={min(big, 4)}")
+        elif case["kind"] == "deb":
+            res = run_deb_case(iu, case)
+            vs = monitor_deb(case, res)
+            ops, exp = ([], []) if (res["hang"] or res["exc"] is not None) else c29_deb.deb_trace(res["log"], START)
+            yielded = []
+            o = c29_deb.oracle(res["log"])
+            if o is not None and o["fire"] is not None:
+                out.count("deb:closed_by=" + o["why"])
+                out.count("deb:extends_before_signal=" + ("0" if o["n_ext"] == 0 else "1" if o["n_ext"] == 1 else "2+"))
+                out.count("deb:loop_iterations=" + str(min(o["loops"], 4)) + ("+" if o["loops"] >= 4 else ""))
+                n_after = sum(1 for ev in res["log"] if ev[0] == "EXT") - o["n_ext"]
+                out.count("deb:extend_after_signal" if n_after else "deb:no_extend_after_signal")
+                out.count("deb:debounce>=max_window" if case["d"] >= case["w"] else "deb:debounce<max_window")
+                if o["n_ext"] >= 1:
+                    out.nontrivial(_case_key(case))
         elif case["kind"] == "str":
             res = run_str_case(iu, case)
             vs = monitor_str(case, res)
@@ -1104,7 +1248,8 @@ def run(env: Env) -> Outcome:
         elif case["kind"] == "nested":
             res = run_dsp_case(iu, case)
             vs = monitor_dsp(case, res)
-            ops, exp = [], []
+            vs += [] if res["hang"] else c29_deb.monitor_timer(case, res["log"], Violation, ended=True)
+            ops, exp = ([], []) if res["hang"] else c29_deb.deb_trace(res["log"], START)
             yielded = res["out"]
             out.count("nested:" + ("hang" if res["hang"] else "error" if res["exc"] is not None else "ok"))
         else:
@@ -1116,6 +1261,16 @@ def run(env: Env) -> Outcome:
                 big_in_k = True
                 out.count("dsp:long:model_replayed_above_%d" % K_MAX_ITEMS)
             ops, exp = ([], []) if (res["hang"] or not in_k) else dsp_trace(case, res)
+            if not res["hang"]:
+                # the same run's timer, replayed by the timed Debouncer model (cheap: linear, also for the long bursts)
+                vs += c29_deb.monitor_timer(case, res["log"], Violation, ended=True)
+                dops, dexp = c29_deb.deb_trace(res["log"], START)
+                ops, exp = ops + dops, exp + dexp
+                o = c29_deb.oracle(res["log"])
+                if dops and o is not None and o["fire"] is not None:
+                    out.count("dsp:timer:closed_by=" + o["why"])
+                    n_after = sum(1 for ev in res["log"] if ev[0] == "EXT") - o["n_ext"]
+                    out.count("dsp:timer:extend_after_signal" if n_after else "dsp:timer:no_extend_after_signal")
             yielded = res["out"]
             out.count("dsp:" + ("hang" if res["hang"] else "error" if res["exc"] is not None else "ok"))
             log = res["log"]
@@ -1135,6 +1290,13 @@ def run(env: Env) -> Outcome:
             if nb >= 100:
                 mag = "100.." if burst < 1000 else "1000.." if burst < 2500 else "2500.." if burst < 10000 else "10000.."
                 out.count(f"dsp:long:burst={mag}" + (",later" if nb > burst else ",nolater"))
+        if res.get("hang"):
+            n_hangs += 1
+            if n_hangs >= MAX_HANGS:
+                # every further livelocked run costs MAX_STEPS loop iterations: the violations are recorded, stop here
+                out.violations += vs
+                out.notes.append(f"stopped after {n_hangs} runs that did not terminate ({ci + 1} of {len(cases)} cases run)")
+                break
         out.evaluations += 1
         if len(yielded) >= 2:
             out.nontrivial(_case_key(case))
@@ -1149,10 +1311,14 @@ def run(env: Env) -> Outcome:
     # malformed / not-enabled stream: the model must refuse, never guess
     bad_ops = ["resume", "minit 0 2", "resume", "batch 0", "prod 5 1", "prod 0 1", "prod 0 2", "batch 1", "batch 0,0", "batch 0",
                "batch 0", "fire", "dinit nope", "dinit fixed", "mark", "dfin", "dbatch 1", "fire", "fire", "dprod x 1", "prod 0 1",
-               "", "minit 2 2", "batch 0;1"]
+               "", "minit 2 2", "batch 0;1", "c29deb_loop 1", "c29deb_init 4 8", "c29deb_init 4 8 0", "c29deb_loop -1", "c29deb_extend x",
+               "c29deb_loop 0", "c29deb_loop 3", "c29deb_extend 2", "prod 0 1", "c29deb_loop 4", "c29deb_extend 3", "c29deb_loop 6",
+               "c29deb_loop 7", "c29deb_state"]
     bad_exp = ["bad-op", "ok phase=wait", "disabled", "disabled", "disabled", "ok emit=- phase=wait", "disabled", "disabled", "disabled",
                "ok emit=0:1 phase=susp", "disabled", "bad-op", "bad-op", "ok phase=wait", "disabled", "disabled", "disabled",
-               "ok emit=- yield=- phase=wait", "disabled", "bad-op", "bad-op", "bad-op", "bad-op", "bad-op"]
+               "ok emit=- yield=- phase=wait", "disabled", "bad-op", "bad-op", "bad-op", "bad-op", "bad-op",
+               "bad-op", "bad-op", "ok wake=0", "disabled", "bad-op", "ok sleep=4", "disabled", "ok complete=6", "bad-op",
+               "ok sleep=6", "disabled", "ok fired=6", "disabled", "state fired=6 wakes=3 exts=1 late=0"]
     all_ops += bad_ops
     all_exp += bad_exp
     owner += [-1] * len(bad_ops)
